@@ -1125,3 +1125,46 @@ Proof.
     rewrite app_length, zrange_app. split; [|lia].
     rewrite <- A. f_equal. rewrite A2 at 1. f_equal. lia.
 Qed.
+
+(* ------------------------------------------------------------------ liquidity stake rewards (after the spork) *)
+
+(* whatever the token tuples, stake entries, balances and additional rewards are: if the routine completes, what
+   it credits plus what it mints to the contract minus what it burns from the contract's balance is exactly the
+   epoch's liquidity share of the emission; credits never exceed that share plus the burned additional reward;
+   the additional reward is only taken if the balance covers it *)
+Theorem liquidity_stake_exact epoch s e halted bal_z bal_q extra_z extra_q ts l r :
+  0 <= epoch < two64 ->
+  liq_stake_rewards epoch s e halted bal_z bal_q extra_z extra_q ts l = Ok (Done r) ->
+  exists z q lz lq, NetworkZnnRewardPerEpoch epoch = Ok z /\ NetworkQsrRewardPerEpoch epoch = Ok q /\
+    LiquidityRewardForEpoch epoch = Ok (lz, lq) /\ 0 <= lz <= z /\ 0 <= lq <= q /\
+    zsum (map (fun c => fst (snd c)) (lq_credits r)) + fst (lq_mint r) - fst (lq_burn r) = lz /\
+    zsum (map (fun c => snd (snd c)) (lq_credits r)) + snd (lq_mint r) - snd (lq_burn r) = lq /\
+    zsum (map (fun c => fst (snd c)) (lq_credits r)) <= lz + fst (lq_burn r) /\
+    zsum (map (fun c => snd (snd c)) (lq_credits r)) <= lq + snd (lq_burn r) /\
+    0 <= fst (lq_mint r) /\ 0 <= snd (lq_mint r) /\
+    (fst (lq_burn r) = 0 \/ (fst (lq_burn r) = extra_z /\ 0 < extra_z <= bal_z)) /\
+    (snd (lq_burn r) = 0 \/ (snd (lq_burn r) = extra_q /\ 0 < extra_q <= bal_q)).
+Proof.
+  intros Hep. destruct (liquidity_share epoch Hep) as [z [q [lz [lq [Hz [Hq [Hl [Hlz Hlq]]]]]]]].
+  unfold liq_stake_rewards. rewrite Hl. cbn [bind fst snd]. intros H.
+  exists z, q, lz, lq. split; [exact Hz|]. split; [exact Hq|]. split; [reflexivity|]. split; [exact Hlz|]. split; [exact Hlq|].
+  destruct halted.
+  - inversion H. subst r. cbn [lq_credits lq_mint lq_burn map zsum fold_right fst snd]. repeat split; try lia; left; reflexivity.
+  - set (take := negb (bal_z <? extra_z) && negb (bal_q <? extra_q)) in *.
+    set (bz := if take && (0 <? extra_z) then extra_z else 0) in *.
+    set (bq := if take && (0 <? extra_q) then extra_q else 0) in *.
+    match type of H with context [flat_map ?f l] => set (credits := flat_map f l) in * end.
+    set (fz := zsum (map (fun c => fst (snd c)) credits)) in *.
+    set (fq := zsum (map (fun c => snd (snd c)) credits)) in *.
+    destruct ((lz + bz <? fz) || (lq + bq <? fq)) eqn:Ebad; [discriminate|].
+    inversion H. subst r. clear H. cbn [lq_credits lq_mint lq_burn fst snd]. fold fz fq.
+    assert (Hbz : bz = 0 \/ (bz = extra_z /\ 0 < extra_z <= bal_z)).
+    { unfold bz, take. destruct (bal_z <? extra_z) eqn:E1; cbn [negb andb]; [left; reflexivity|].
+      destruct (bal_q <? extra_q); cbn [negb andb]; [left; reflexivity|].
+      destruct (0 <? extra_z) eqn:E3; [right; lia|left; reflexivity]. }
+    assert (Hbq : bq = 0 \/ (bq = extra_q /\ 0 < extra_q <= bal_q)).
+    { unfold bq, take. destruct (bal_z <? extra_z) eqn:E1; cbn [negb andb]; [left; reflexivity|].
+      destruct (bal_q <? extra_q) eqn:E2; cbn [negb andb]; [left; reflexivity|].
+      destruct (0 <? extra_q) eqn:E3; [right; lia|left; reflexivity]. }
+    destruct (fz <? lz + bz) eqn:E1; destruct (fq <? lq + bq) eqn:E2; repeat split; try lia; assumption.
+Qed.
